@@ -5,7 +5,7 @@ from vlib import common as C
 
 WRAPS = ("pthread_rwlock_rdlock pthread_rwlock_wrlock pthread_rwlock_unlock pthread_mutex_lock pthread_mutex_unlock "
          "pthread_cond_wait pthread_cond_timedwait pthread_spin_lock pthread_spin_unlock iwp_pread open64 open "
-         "iwp_current_time_ms pwrite64 write ftruncate64 msync").split()
+         "iwp_current_time_ms pwrite64 write ftruncate64 msync munmap").split()
 SOURCES = ["h_conc.c", "h_side_fsm.c", "h_side_exf.c", "h_side_wal.c"]
 EXCLUDE = ("iwkv.c", "iwfsmfile.c", "iwexfile.c", "iwal.c")
 
